@@ -3,6 +3,7 @@
 use vcore::*;
 
 pub mod common;
+pub mod craft;
 pub mod examples;
 pub mod c01;
 pub mod c02;
